@@ -31,6 +31,7 @@ def run(mid, props):
             print(mid, p, "exit", rc, "violations", len(viol), viol[:1])
     finally:
         sh("git -C /repo checkout -- .")
+        sh("python3 %s" % os.path.join(ROOT, "tools", "gen_tables.py"))
     meta["properties"] = sorted(set(meta.get("properties", []) + props))
     meta["detected_by"] = sorted(p for p, r in meta["checks"].items() if r["exit"] == 1)
     json.dump(meta, open(os.path.join(d, "meta.json"), "w"), indent=1)
